@@ -745,3 +745,39 @@ Section Lim.
       apply IH; [eapply Reach_step; eauto | | exact H]. rewrite (endt_mono c s t s1 Hs He). exact He.
   Qed.
 End Lim.
+
+(** * The status register *)
+Lemma last_error_app a b acc : last_error (a ++ b) acc = last_error b (last_error a acc).
+Proof. revert acc. induction a as [|[|m|] a IH]; intros acc; cbn; auto. Qed.
+
+Lemma last_error_rank ws acc : srank acc <= 1 -> srank (last_error ws acc) <= 1.
+Proof. revert acc. induction ws as [|[|m|] r IH]; intros acc H; cbn; auto. Qed.
+
+Lemma status_after_snoc pre w : status_after (pre ++ [w]) = set_status (status_after pre) w.
+Proof.
+  unfold status_after. rewrite existsb_app, last_error_app. cbn [existsb last_error].
+  destruct (existsb is_sok pre) eqn:E.
+  - destruct w; reflexivity.
+  - pose proof (last_error_rank pre SUnset ltac:(cbn; lia)) as Hr.
+    destruct w as [|m|]; cbn [is_sok orb].
+    + unfold set_status. destruct (last_error pre SUnset); cbn in *; try reflexivity; lia.
+    + unfold set_status. destruct (last_error pre SUnset); cbn in *; try reflexivity; lia.
+    + unfold set_status. destruct (last_error pre SUnset); cbn in *; try reflexivity.
+Qed.
+
+Lemma status_run_spec ws : forall pre,
+  status_run (status_after pre) ws = map (fun i => status_after (pre ++ firstn (S i) ws)) (seq 0 (length ws)).
+Proof.
+  induction ws as [|w r IH]; intros pre; [reflexivity|].
+  cbn [status_run length seq map firstn]. rewrite <- status_after_snoc. f_equal.
+  rewrite (IH (pre ++ [w])). rewrite <- seq_shift, map_map.
+  apply map_ext. intros i. now rewrite <- app_assoc.
+Qed.
+
+Lemma scodes_eqb_refl l : scodes_eqb l l = true.
+Proof. induction l as [|[|m|] l IH]; cbn; auto. now rewrite Nat.eqb_refl. Qed.
+
+Theorem status_spec_holds ws : status_spec ws (status_run SUnset ws) = true.
+Proof.
+  unfold status_spec. change SUnset with (status_after []). rewrite status_run_spec. cbn [app]. apply scodes_eqb_refl.
+Qed.
